@@ -11,9 +11,10 @@ Oracle (no model): audit of the cache directory by the Go side alone (every visi
                follow-up build; the follow-up build (fresh process, no faults) restores byte-identical outputs for every
                cached target and rebuilds the others. The real grog process is killed by strace fault injection (SIGKILL on
                syscall entry) at the first openat/write/close/rename touching each cache entry and at the N-th rename / write /
-               openat of a reference run (quick: 4 kill points, thorough: all), then audit + real follow-up builds.
+               openat of a reference run (quick: 4 kill points, thorough: all), then audit + real follow-up builds. The real grog
+               binary on a cache that lost any single entry (thorough: any pair): the next builds succeed with the clean outputs.
 """
-import hashlib, json, os, re, shutil, subprocess
+import hashlib, json, os, re, shutil, subprocess, time
 from . import _stores as S
 from ._stores import F, D, L
 
@@ -74,6 +75,17 @@ def fixed_workloads():
     ws2 = D(("p", D(("wide", big), ("one.bin", F(pat(65536, 5))))))
     t2 = [{"pkg": "p", "name": "t0", "key": "kW", "outputs": [["dir", "wide"]]}, {"pkg": "p", "name": "t1", "key": "kO", "outputs": [["file", "one.bin"]]}]
     return [(ws, t), (ws2, t2)]
+
+
+def huge_workload():
+    """multi-MiB blobs (block-generated): a 5 MiB file output and a directory output with a 4.5 MiB file next to a small one; target
+    results and tree blobs stay small, so that size-selective faults (disk full for large files only, a cancellation between two
+    chunks of a stream) hit the blobs and not the entries that reference them"""
+    MiB = 1 << 20
+    ws = D(("p", D(("huge.bin", S.FB([[72, 4 * MiB], [73, MiB + 17]], True)),
+                   ("o", D(("large", S.FB([[75, 3 * MiB], [76, MiB], [77, MiB // 2]])), ("s", D(("c", F("2", True)))))))))
+    t = [{"pkg": "p", "name": "t0", "key": "kH", "outputs": [["file", "huge.bin"]]}, {"pkg": "p", "name": "t1", "key": "kD", "outputs": [["dir", "o"]]}]
+    return ws, t
 
 
 def trace_oracle(ev, cas_keys, target_keys):
@@ -145,6 +157,8 @@ def run(ctx):
     stats = {"runs": 0, "events": 0, "outcome": {}, "faults_hit": {}, "followup": {}, "ops_per_reference_run": [], "concurrent_runs": 0, "unlocked_runs": 0}
     replay_reqs = []
     loads = fixed_workloads() + [workload(ctx.rng, k) for k in range(2 if quick else 25)]
+    huge_index = len(loads)
+    loads.append(huge_workload())
     distinct = set()
     all_reqs = []
     for wi, (ws, targets) in enumerate(loads):
@@ -161,32 +175,37 @@ def run(ctx):
         reqs = []
         # every single fault; the number of operations can grow after a fault (Exists fails -> Set is tried), so go a bit beyond
         # (large workloads: a stride through the operations in the quick tier, every operation in the thorough tier)
-        stride = 1 if (nops <= 60 or not quick) else max(1, nops // 15)
-        for i in list(range(1, nops + 3, stride)) + ([nops, nops + 1] if stride > 1 else []):
-            for kind in KINDS:
+        stride = 1 if (nops <= 60 or not quick) else max(1, nops // 12)
+        huge = wi == huge_index
+        for j, i in enumerate(list(range(1, nops + 3, stride)) + ([nops, nops + 1] if stride > 1 else [])):
+            for kind in (["cancel", "err-mid"] if huge else KINDS + (["cancel"] if stride == 1 or j % 2 == 0 else [])):
+                # "cancel": the build is cancelled (ctrl-c, --fail-fast) at the i-th operation, in the middle of the stream of a Set
                 reqs.append((dict(base, plans=[{"plan": {str(i): kind}}]), "single:" + kind))
         # the disk fills up at the i-th operation: from then on no file of the process can grow beyond L bytes (write(2) stores what
         # fits and fails) — for writes through a temp file nothing becomes visible; an in-place write would leave a truncated entry
         for i in range(1, nops + 1, 1 if (nops <= 30 or not quick) else max(1, nops // 10)):
-            for lim in ((0, 64) if quick else (0, 1, 64, 3000, 40000)):
+            # limits between the sizes of the entries: small entries (target results, trees) still fit while blobs do not
+            for lim in ((4096, 1 << 20)[i % 2:][:1] if huge and quick else (4096, 1 << 20) if huge else ((0, (64, 4096)[i % 2]) if quick else (0, 1, 64, 3000, 4096, 40000))):
                 reqs.append((dict(base, plans=[{"plan": {str(i): "fsize:%d" % lim}}]), "disk-full"))
         # repeated faults: everything from the i-th operation on fails; two and three scattered faults
-        for i in range(1, nops + 1, 1 if not quick else max(1, nops // 4)):
+        for i in ([] if huge else range(1, nops + 1, 1 if not quick else max(1, nops // 4))):
             for kind in KINDS:
                 reqs.append((dict(base, plans=[{"every": kind, "from": i}]), "from:" + kind))
-        for _ in range(6 if quick else 60):
+        for _ in range(0 if huge else (6 if quick else 60)):
             idx = ctx.rng.sample(range(1, nops + 2), min(nops, ctx.rng.choice([2, 3])))
             reqs.append((dict(base, plans=[{"plan": {str(i): ctx.rng.choice(KINDS) for i in idx}}]), "multi"))
         # two concurrent processes writing the same content (same digests, same target keys), with faults
-        for _ in range(6 if quick else 60):
+        for _ in range(0 if huge else (6 if quick else 60)):
             plans = [{"plan": {str(ctx.rng.randint(1, nops + 1)): ctx.rng.choice(KINDS) for _ in range(ctx.rng.choice([0, 1, 2]))}} for _ in range(2)]
             reqs.append((dict(base, procs=2, plans=plans), "concurrent"))
-        for _ in range(4 if quick else 30):
+        for _ in range(0 if huge else (4 if quick else 30)):
             plans = [{"plan": {str(ctx.rng.randint(1, nops + 1)): ctx.rng.choice(KINDS) for _ in range(ctx.rng.choice([0, 1]))}} for _ in range(3)]
             reqs.append((dict(base, procs=3, lock=False, plans=plans), "concurrent-unlocked"))
         # every second run with a ProgressTracker: the handlers then hand wrapped (non-seekable) readers to Cas.Write
         reqs = [(dict(r, progress=(j % 2 == 0)), tag) for j, (r, tag) in enumerate(reqs)]
+        t0 = time.time()
         outs = S.impl(ctx, [r for r, _ in reqs])
+        stats.setdefault("seconds_per_workload", []).append([len(reqs), round(time.time() - t0, 1)])
         for (r, tag), x in zip(reqs, outs):
             all_reqs.append(r)
             if tag.startswith("concurrent"):
@@ -200,7 +219,9 @@ def run(ctx):
                 check_run(ctx, r, x, tag, stats, replay_reqs)
             if "events" in x and any(e.get("fault") or e["e"] == "disk-full" for e in x["events"]):
                 distinct.add(hashlib.sha1(S.jdump([wi, r["plans"], r["procs"], r.get("progress")]).encode()).hexdigest())
+    t0 = time.time()
     remote_read_faults(ctx, scratch, stats)
+    stats["seconds_remote_read_faults"] = round(time.time() - t0, 1)
     # --- trace inclusion -------------------------------------------------------------------------
     rejected = []
     state_diffs = []
@@ -220,8 +241,8 @@ def run(ctx):
     ctx.coverage["distinct_nontrivial"] = len(distinct)
     ctx.coverage["rule"] = ("workloads of 1-3 targets (directory and file outputs sharing contents and sub-directories); per workload: reference run, every "
                             "single fault (i-th backend operation x {err, err-after = stored but error returned, err-mid = reader fails half way}), "
-                            "disk full at the i-th operation (RLIMIT_FSIZE 0/64 bytes: writes store what fits and fail), everything-fails-from-i, 2-3 scattered faults, remote read-fault histories (mid-stream failure / early close, then a second read; local cache content audit), two concurrent processes with faults (per-key serialised wrapper: replayed), three "
-                            "concurrent processes without the wrapper lock (audit only); after every run: Go-side audit, follow-up build, audit; non-trivial = "
+                            "the build context cancelled at the i-th operation (before an Exists, half way through the stream of a Set), disk full at the i-th operation (RLIMIT_FSIZE 0/64/4096 bytes, 4096 bytes/1 MiB on a workload with 5 MiB blobs: writes store what fits and fail, small entries still fit), everything-fails-from-i, 2-3 scattered faults, remote read-fault histories (mid-stream failure / early close, then a second read; local cache content audit), two concurrent processes with faults (per-key serialised wrapper: replayed), three "
+                            "concurrent processes without the wrapper lock (audit only); after every run: Go-side audit, follow-up build, audit; the real grog binary on a cache from which each single entry was deleted in turn (thorough: pairs) must rebuild to the clean outputs; non-trivial = "
                             "distinct (workload, fault plan) in which at least one injected fault was actually hit")
     ctx.coverage["distribution"] = stats
     ctx.coverage["trace_events_replayed"] = sum(len(rr["events"]) for rr, _, _, _ in replay_reqs)
@@ -238,7 +259,12 @@ def run(ctx):
                       {"kind": "correspondence", "correspondence": "backend-operation traces of Registry.WriteOutputs + TargetResultCache.Write vs GrogModel.Store.step",
                        "request": req, "model": y, "rejected_event": rr["events"][at] if 0 <= at < len(rr["events"]) else None,
                        "events": rr["events"], "n_rejected": len(rejected), "n_state_diffs": len(state_diffs)}, found_input=False)
+    t0 = time.time()
     strace_kills(ctx, stats)
+    stats["seconds_strace_kills"] = round(time.time() - t0, 1)
+    t0 = time.time()
+    cache_losses(ctx, stats)
+    stats["seconds_lost_entries"] = round(time.time() - t0, 1)
 
 
 def remote_read_faults(ctx, scratch, stats):
@@ -408,6 +434,77 @@ def strace_kills(ctx, stats):
         done += 1
     stats["strace_kill_runs"] = done
     stats["strace_kills_that_ended_the_build"] = effective
+    ctx.coverage["evaluations"] += done
+
+
+def cache_losses(ctx, stats):
+    """the real grog binary on a cache that lost entries: after a reference build every single entry of the cache directory (each
+    file blob of a directory output, the tree blob, each file-output blob, each target result) is deleted in turn (thorough: also
+    pairs), the outputs are removed from the workspace, and the next build must succeed with the clean-build outputs (re-executing
+    what was lost); the build after that (outputs removed again) must again succeed with the same outputs, and the cache directory
+    must pass the audit."""
+    grog = ctx.grog_binary()
+    if not grog:
+        ctx.notes.append("lost-entry builds skipped (grog binary unavailable)")
+        return
+    base = ctx.scratch("c07-loss")
+    d = os.path.join(base, "l")
+    shutil.rmtree(d, ignore_errors=True)
+    ws = os.path.join(d, "ws")
+    make_workspace(ws)
+    root = os.path.join(d, "root")
+    e = dict(os.environ, GROG_DISABLE_NON_DETERMINISTIC_LOGGING="true", GROG_ROOT=root, HOME=d)
+    p = subprocess.run([grog, "build", "//..."], cwd=ws, env=e, capture_output=True, text=True, timeout=120)
+    if p.returncode != 0:
+        ctx.notes.append("lost-entry reference build failed: " + (p.stdout + p.stderr)[-400:])
+        return
+    expected = snapshot(ws)
+    entries = []
+    for dp, dn, fn in os.walk(root):
+        if os.path.basename(os.path.dirname(dp)) == "cache" and os.path.basename(dp) in ("cas", "target"):
+            entries += [os.path.relpath(os.path.join(dp, f), root) for f in fn if not f.startswith("tmp-")]
+    entries.sort()
+    pristine = os.path.join(d, "pristine")
+    shutil.copytree(root, pristine, symlinks=True)
+    losses = [(x,) for x in entries]
+    if ctx.tier != "quick":
+        losses += [(x, y) for i, x in enumerate(entries) for y in entries[i + 1:]]
+
+    def remove_outputs():
+        shutil.rmtree(os.path.join(ws, "pkg", "out"), ignore_errors=True)
+        for f in ("tool", "b.txt"):
+            if os.path.lexists(os.path.join(ws, "pkg", f)):
+                os.remove(os.path.join(ws, "pkg", f))
+    done = 0
+    for lost in losses:
+        shutil.rmtree(root, ignore_errors=True)
+        shutil.copytree(pristine, root, symlinks=True)
+        for x in lost:
+            os.remove(os.path.join(root, x))
+        what = " and ".join("/".join(x.split("/")[-2:]) for x in lost)
+        for phase in ("build after the loss", "second build after the loss"):
+            remove_outputs()
+            q = subprocess.run([grog, "build", "//..."], cwd=ws, env=e, capture_output=True, text=True, timeout=120)
+            got = snapshot(ws) if q.returncode == 0 else None
+            if q.returncode != 0 or got != expected:
+                ctx.violation("the %s of cache entry %s fails or produces different outputs (what was lost must be re-executed)" % (phase, what),
+                              {"kind": "oracle", "oracle": "build on a cache that lost entries", "lost": list(lost), "phase": phase, "rc": q.returncode,
+                               "output": (q.stdout + q.stderr)[-1500:], "workspace": "tools/checks/c07.py make_workspace",
+                               "differs": sorted(k for k in set(expected) | set(got or {}) if expected.get(k) != (got or {}).get(k))[:10]},
+                              signature="build-after-lost-entry:" + ("+".join(sorted({x.split("/")[-2] for x in lost}))))
+                break
+            if ctx.tier == "quick" and len(entries) > 4 and done % 3:
+                break       # quick: the second build for every third loss only
+        for dp, dn, _ in os.walk(root):
+            if "cache" in dn:
+                a = S.impl(ctx, [{"op": "store.audit", "cache": os.path.join(dp, "cache")}])[0]
+                if a.get("audit"):
+                    ctx.violation("cache directory inconsistent after the builds that followed the loss of %s: %s" % (what, "; ".join(a["audit"][:3])),
+                                  {"kind": "oracle", "oracle": "audit after recovery from a lost entry", "lost": list(lost), "audit": a["audit"]},
+                                  signature="audit-after-lost-entry")
+        done += 1
+    stats["lost_entry_runs"] = done
+    stats["lost_entry_cache_entries"] = len(entries)
     ctx.coverage["evaluations"] += done
 
 
